@@ -20,6 +20,7 @@ type RatModel struct {
 type BigIntModel struct {
 	Kind string    // "num" or "den"
 	R    *smt.Term // the rational it was taken from
+	Rat  *RatModel // the model of that rational (integrality, integer term when known)
 }
 
 // BigBytes is the value of (*big.Int).Bytes() on a model integer: an opaque byte
@@ -125,7 +126,7 @@ func registerBig(p *Program) {
 	mkInt := func(kind string) func(m *Machine, fr *frame, args []Value) Value {
 		return func(m *Machine, fr *frame, args []Value) Value {
 			a := ratOf(m, args[0])
-			var cell Value = Struct{&BigIntModel{Kind: kind, R: a.R}, []Value(nil)}
+			var cell Value = Struct{&BigIntModel{Kind: kind, R: a.R, Rat: a}, []Value(nil)}
 			return &cell
 		}
 	}
@@ -141,6 +142,67 @@ func registerBig(p *Program) {
 			unsupported("(*big.Int).Bytes on non-model integer")
 		}
 		return []Value{&BigBytes{Kind: bi.Kind, R: bi.R}}
+	})
+	// numOfIntegral returns the numerator of a rational that is an integer on this path, as an
+	// Int term (a fresh integer tied to the real value when no integer term is at hand).
+	numOfIntegral := func(m *Machine, args []Value, what string) *smt.Term {
+		pv := args[0].(*Value)
+		if pv == nil {
+			nilDeref(what)
+		}
+		bi, ok := (*pv).(Struct)[0].(*BigIntModel)
+		if !ok || bi.Kind != "num" || bi.Rat == nil {
+			unsupported(what + " on a big.Int that is not the numerator of a model rational")
+		}
+		a := bi.Rat
+		c := m.Ctx
+		if a.I != nil {
+			return a.I
+		}
+		if a.R.Op == smt.OpConst {
+			if !a.R.R.IsInt() {
+				unsupported(what + " on the numerator of a non-integral rational")
+			}
+			return c.BigInt(a.R.R.Num())
+		}
+		var isInt *smt.Term
+		switch {
+		case a.F != nil && a.F.IsInt != nil:
+			isInt = a.F.IsInt
+		case a.IsIntT != nil:
+			isInt = a.IsIntT
+		}
+		if isInt == nil {
+			unsupported(what + " on the numerator of a rational of unknown integrality")
+		}
+		if v, isB := unTerm(m.simp(isInt)).(bool); !isB || !v {
+			if !m.Branch(isInt, what+" integral") {
+				unsupported(what + " on the numerator of a non-integral rational")
+			}
+		}
+		n := m.Fresh("bignum", smt.SInt)
+		m.Assume(c.Eq(c.ToReal(n), a.R))
+		return n
+	}
+	two63 := new(big.Int).Lsh(big.NewInt(1), 63)
+	two64 := new(big.Int).Lsh(big.NewInt(1), 64)
+	reg("(*math/big.Int).IsInt64", func(m *Machine, fr *frame, args []Value) Value {
+		n := numOfIntegral(m, args, "(*big.Int).IsInt64")
+		c := m.Ctx
+		return unTerm(m.simp(c.And(c.Ge(n, c.BigInt(new(big.Int).Neg(two63))), c.Lt(n, c.BigInt(two63)))))
+	})
+	reg("(*math/big.Int).IsUint64", func(m *Machine, fr *frame, args []Value) Value {
+		n := numOfIntegral(m, args, "(*big.Int).IsUint64")
+		c := m.Ctx
+		return unTerm(m.simp(c.And(c.Ge(n, c.Int(0)), c.Lt(n, c.BigInt(two64)))))
+	})
+	reg("(*math/big.Int).Int64", func(m *Machine, fr *frame, args []Value) Value {
+		n := numOfIntegral(m, args, "(*big.Int).Int64")
+		c := m.Ctx
+		// the result is undefined when the value does not fit; the engine follows the
+		// implementation (low 64 bits, two's complement)
+		w := c.Mod(c.Add(n, c.BigInt(two63)), c.BigInt(two64))
+		return m.intVal(c.Sub(w, c.BigInt(two63)))
 	})
 	reg("(*math/big.Rat).Float64", func(m *Machine, fr *frame, args []Value) Value {
 		a := ratOf(m, args[0])
